@@ -1,675 +1,4 @@
-// GENERATED by bin/lib/c_derive.py from the definitions TLC emitted (spec/MC_DeriveModel.tla). Do not edit.
+//! One quarter of the generated corpus of C17.  `generated.rs` (next to Cargo.toml, git-ignored) is
+//! rendered by bin/lib/c_derive.py on every check run from the definitions TLC emitted.
 #![allow(dead_code, unused_imports, non_camel_case_types)]
-use avro_verif_harness::c17::{Runner, run_type};
-
-pub mod s00f00c43b4 {
-    use apache_avro::AvroSchema;
-    use serde::{Deserialize, Serialize};
-    use std::collections::HashMap;
-    #[derive(AvroSchema, Serialize, Deserialize)]
-    pub enum Shape {
-        One,
-        #[serde(skip)]
-        Two(i32),
-        MyItem(i32, String),
-        DarkBlue {
-            very_tasty: i64,
-            b: Option<String>,
-        },
-    }
-}
-
-pub mod s0196fd8720 {
-    use apache_avro::AvroSchema;
-    use serde::{Deserialize, Serialize};
-    use std::collections::HashMap;
-    #[derive(AvroSchema, Serialize, Deserialize)]
-    #[serde(rename_all = "SCREAMING_SNAKE_CASE")]
-    pub struct Rec {
-        #[serde(skip_serializing_if = "Option::is_none", default)]
-        pub very_tasty: Option<i32>,
-        pub z42: i32,
-    }
-}
-
-pub mod s0ebe84b664 {
-    use apache_avro::AvroSchema;
-    use serde::{Deserialize, Serialize};
-    use std::collections::HashMap;
-    #[derive(AvroSchema, Serialize, Deserialize)]
-    #[serde(rename_all = "SCREAMING_SNAKE_CASE")]
-    pub struct Rec {
-        #[serde(rename = "renamed")]
-        pub very_tasty: i32,
-        pub z42: i32,
-    }
-}
-
-pub mod s1814921c28 {
-    use apache_avro::AvroSchema;
-    use serde::{Deserialize, Serialize};
-    use std::collections::HashMap;
-    #[derive(AvroSchema, Serialize, Deserialize)]
-    pub struct Rec {
-        pub a: i32,
-        #[serde(flatten)]
-        pub rest: Inner,
-    }
-    #[derive(AvroSchema, Serialize, Deserialize)]
-    pub struct Inner {
-        pub x: i32,
-        pub kind: String,
-    }
-}
-
-pub mod s1893ac00d0 {
-    use apache_avro::AvroSchema;
-    use serde::{Deserialize, Serialize};
-    use std::collections::HashMap;
-    #[derive(AvroSchema, Serialize, Deserialize)]
-    pub struct Empty {
-    }
-}
-
-pub mod s22bbedbd80 {
-    use apache_avro::AvroSchema;
-    use serde::{Deserialize, Serialize};
-    use std::collections::HashMap;
-    #[derive(AvroSchema, Serialize, Deserialize)]
-    pub struct Outer {
-        pub a: Vec<Inner>,
-        pub id: i32,
-    }
-    #[derive(AvroSchema, Serialize, Deserialize)]
-    pub struct Inner {
-        pub x: i32,
-        pub kind: String,
-    }
-}
-
-pub mod s27297796d4 {
-    use apache_avro::AvroSchema;
-    use serde::{Deserialize, Serialize};
-    use std::collections::HashMap;
-    #[derive(AvroSchema, Serialize, Deserialize)]
-    pub struct Rec {
-        pub a: [i32; 1],
-        pub my_field: i32,
-    }
-}
-
-pub mod s31cfe2a060 {
-    use apache_avro::AvroSchema;
-    use serde::{Deserialize, Serialize};
-    use std::collections::HashMap;
-    #[derive(AvroSchema, Serialize, Deserialize)]
-    pub enum Shape {
-        One,
-        #[serde(rename = "Second")]
-        Two(i32),
-        MyItem(i32, String),
-        DarkBlue {
-            very_tasty: i64,
-            b: Option<String>,
-        },
-    }
-}
-
-pub mod s3d66968484 {
-    use apache_avro::AvroSchema;
-    use serde::{Deserialize, Serialize};
-    use std::collections::HashMap;
-    #[derive(AvroSchema, Serialize, Deserialize)]
-    #[avro(namespace = "ns")]
-    pub enum Shape {
-        One,
-        Two(i32),
-        MyItem(i32, String),
-        DarkBlue {
-            very_tasty: i64,
-            b: Option<String>,
-        },
-    }
-}
-
-pub mod s3fe10850a8 {
-    use apache_avro::AvroSchema;
-    use serde::{Deserialize, Serialize};
-    use std::collections::HashMap;
-    #[derive(AvroSchema, Serialize, Deserialize)]
-    pub struct Wrap(pub i64);
-}
-
-pub mod s485851a3ec {
-    use apache_avro::AvroSchema;
-    use serde::{Deserialize, Serialize};
-    use std::collections::HashMap;
-    #[derive(AvroSchema, Serialize, Deserialize)]
-    pub struct T1 {
-        pub x: i32,
-        pub left: Option<Box<T2>>,
-        pub right: Option<Box<T1>>,
-    }
-    #[derive(AvroSchema, Serialize, Deserialize)]
-    pub struct T2 {
-        pub y: i32,
-        pub one: Option<Box<T3>>,
-    }
-    #[derive(AvroSchema, Serialize, Deserialize)]
-    pub struct T3 {
-        pub z42: i32,
-        pub item: Option<Box<T2>>,
-    }
-}
-
-pub mod s4b43932dc0 {
-    use apache_avro::AvroSchema;
-    use serde::{Deserialize, Serialize};
-    use std::collections::HashMap;
-    #[derive(AvroSchema, Serialize, Deserialize)]
-    #[avro(namespace = "ns")]
-    pub struct A {
-        pub b: B,
-        pub x: Leaf,
-    }
-    #[derive(AvroSchema, Serialize, Deserialize)]
-    #[avro(namespace = "other")]
-    pub struct B {
-        pub x: Leaf,
-    }
-    #[derive(AvroSchema, Serialize, Deserialize)]
-    pub struct Leaf {
-        pub x: i32,
-    }
-}
-
-pub mod s5e1479ed14 {
-    use apache_avro::AvroSchema;
-    use serde::{Deserialize, Serialize};
-    use std::collections::HashMap;
-    #[derive(AvroSchema, Serialize, Deserialize)]
-    pub struct Rec {
-        #[avro(default = "\"dflt\"")]
-        pub very_tasty: String,
-        pub z42: i32,
-    }
-}
-
-pub mod s65c6b30b8c {
-    use apache_avro::AvroSchema;
-    use serde::{Deserialize, Serialize};
-    use std::collections::HashMap;
-    #[derive(AvroSchema, Serialize, Deserialize)]
-    pub struct Outer {
-        pub a: Option<Color>,
-        pub id: i32,
-    }
-    #[derive(AvroSchema, Serialize, Deserialize)]
-    pub enum Color {
-        Red,
-        DarkBlue,
-        Z42,
-    }
-}
-
-pub mod s6627f3894c {
-    use apache_avro::AvroSchema;
-    use serde::{Deserialize, Serialize};
-    use std::collections::HashMap;
-    #[derive(AvroSchema, Serialize, Deserialize)]
-    pub struct Outer {
-        pub a: Trans,
-        pub id: i32,
-    }
-    #[derive(AvroSchema, Serialize, Deserialize)]
-    #[serde(transparent)]
-    pub struct Trans {
-        pub inner: Option<String>,
-    }
-}
-
-pub mod s7be24e5cf4 {
-    use apache_avro::AvroSchema;
-    use serde::{Deserialize, Serialize};
-    use std::collections::HashMap;
-    #[derive(AvroSchema, Serialize, Deserialize)]
-    #[serde(rename_all = "camelCase")]
-    pub struct Rec {
-        #[serde(alias = "old_name")]
-        pub very_tasty: i32,
-        pub z42: i32,
-    }
-}
-
-pub mod s7ca68348ec {
-    use apache_avro::AvroSchema;
-    use serde::{Deserialize, Serialize};
-    use std::collections::HashMap;
-    #[derive(AvroSchema, Serialize, Deserialize)]
-    #[serde(rename_all = "PascalCase")]
-    pub struct Rec {
-        pub very_tasty: i32,
-        pub id: String,
-        pub z42: Option<i64>,
-    }
-}
-
-pub mod s7d7d4511d4 {
-    use apache_avro::AvroSchema;
-    use serde::{Deserialize, Serialize};
-    use std::collections::HashMap;
-    #[derive(AvroSchema, Serialize, Deserialize)]
-    pub struct Rec {
-        #[serde(alias = "old_name")]
-        pub very_tasty: i32,
-        pub z42: i32,
-    }
-}
-
-pub mod s87e239aedc {
-    use apache_avro::AvroSchema;
-    use serde::{Deserialize, Serialize};
-    use std::collections::HashMap;
-    #[derive(AvroSchema, Serialize, Deserialize)]
-    #[serde(rename_all = "kebab-case")]
-    pub struct Rec {
-        pub very_tasty: i32,
-        pub id: String,
-        pub z42: Option<i64>,
-    }
-}
-
-pub mod s8c91e81f3c {
-    use apache_avro::AvroSchema;
-    use serde::{Deserialize, Serialize};
-    use std::collections::HashMap;
-    #[derive(AvroSchema, Serialize, Deserialize)]
-    pub enum Color {
-        Red,
-        DarkBlue,
-        Z42,
-    }
-}
-
-pub mod s93fba37990 {
-    use apache_avro::AvroSchema;
-    use serde::{Deserialize, Serialize};
-    use std::collections::HashMap;
-    #[derive(AvroSchema, Serialize, Deserialize)]
-    #[serde(rename_all = "snake_case")]
-    #[avro(repr = "bare_union")]
-    pub enum Bare {
-        One,
-        Two(i32),
-        Item(String),
-        DarkBlue {
-            very_tasty: i64,
-        },
-    }
-}
-
-pub mod s998eac7e38 {
-    use apache_avro::AvroSchema;
-    use serde::{Deserialize, Serialize};
-    use std::collections::HashMap;
-    #[derive(AvroSchema, Serialize, Deserialize)]
-    pub struct Three(pub i32, pub Option<String>, pub Vec<bool>);
-}
-
-pub mod s9b72130520 {
-    use apache_avro::AvroSchema;
-    use serde::{Deserialize, Serialize};
-    use std::collections::HashMap;
-    #[derive(AvroSchema, Serialize, Deserialize)]
-    #[serde(rename = "Other")]
-    #[avro(namespace = "ns")]
-    pub struct Rec {
-        pub very_tasty: i32,
-        pub id: String,
-        pub z42: Option<i64>,
-    }
-}
-
-pub mod s9f629bf4e0 {
-    use apache_avro::AvroSchema;
-    use serde::{Deserialize, Serialize};
-    use std::collections::HashMap;
-    #[derive(AvroSchema, Serialize, Deserialize)]
-    #[avro(repr = "union_of_records")]
-    pub enum Color {
-        Red,
-        DarkBlue,
-        Z42,
-    }
-}
-
-pub mod saa4cd2ee98 {
-    use apache_avro::AvroSchema;
-    use serde::{Deserialize, Serialize};
-    use std::collections::HashMap;
-    #[derive(AvroSchema, Serialize, Deserialize)]
-    #[serde(rename_all = "camelCase")]
-    pub enum Shape {
-        One,
-        Two(i32),
-        MyItem(i32, String),
-        DarkBlue {
-            very_tasty: i64,
-            b: Option<String>,
-        },
-    }
-}
-
-pub mod sad0f33e738 {
-    use apache_avro::AvroSchema;
-    use serde::{Deserialize, Serialize};
-    use std::collections::HashMap;
-    #[derive(AvroSchema, Serialize, Deserialize)]
-    #[avro(namespace = "ns")]
-    pub struct A {
-        pub b: Shape,
-    }
-    #[derive(AvroSchema, Serialize, Deserialize)]
-    pub enum Shape {
-        One,
-        Two(i32),
-        MyItem(i32, String),
-        DarkBlue {
-            very_tasty: i64,
-            b: Option<String>,
-        },
-    }
-}
-
-pub mod sad465dd7ac {
-    use apache_avro::AvroSchema;
-    use serde::{Deserialize, Serialize};
-    use std::collections::HashMap;
-    #[derive(AvroSchema, Serialize, Deserialize)]
-    #[serde(rename_all = "UPPERCASE")]
-    pub enum Color {
-        Red,
-        DarkBlue,
-        Z42,
-    }
-}
-
-pub mod sbf599ae8e0 {
-    use apache_avro::AvroSchema;
-    use serde::{Deserialize, Serialize};
-    use std::collections::HashMap;
-    #[derive(AvroSchema, Serialize, Deserialize)]
-    pub struct Outer {
-        pub a: Vec<Bare>,
-        pub id: i32,
-    }
-    #[derive(AvroSchema, Serialize, Deserialize)]
-    #[avro(repr = "bare_union")]
-    pub enum Bare {
-        One,
-        Two(i32),
-        Item(String),
-        DarkBlue {
-            very_tasty: i64,
-        },
-    }
-}
-
-pub mod sbfb75c2e80 {
-    use apache_avro::AvroSchema;
-    use serde::{Deserialize, Serialize};
-    use std::collections::HashMap;
-    #[derive(AvroSchema, Serialize, Deserialize)]
-    pub struct Rec {
-        #[avro(default = "[1, 2]")]
-        pub very_tasty: Vec<i32>,
-        pub z42: i32,
-    }
-}
-
-pub mod sc046b0bae4 {
-    use apache_avro::AvroSchema;
-    use serde::{Deserialize, Serialize};
-    use std::collections::HashMap;
-    #[derive(AvroSchema, Serialize, Deserialize)]
-    pub struct T1 {
-        pub x: i32,
-        pub left: Option<Box<T3>>,
-        pub right: Option<Box<T2>>,
-    }
-    #[derive(AvroSchema, Serialize, Deserialize)]
-    pub struct T2 {
-        pub y: i32,
-        pub one: Option<Box<T1>>,
-    }
-    #[derive(AvroSchema, Serialize, Deserialize)]
-    pub struct T3 {
-        pub z42: i32,
-        pub item: Option<Box<T1>>,
-    }
-}
-
-pub mod sc381c74adc {
-    use apache_avro::AvroSchema;
-    use serde::{Deserialize, Serialize};
-    use std::collections::HashMap;
-    #[derive(AvroSchema, Serialize, Deserialize)]
-    pub enum Color {
-        Red,
-        #[serde(rename = "navy")]
-        DarkBlue,
-        Z42,
-    }
-}
-
-pub mod sd54d5338f0 {
-    use apache_avro::AvroSchema;
-    use serde::{Deserialize, Serialize};
-    use std::collections::HashMap;
-    #[derive(AvroSchema, Serialize, Deserialize)]
-    #[serde(rename_all = "SCREAMING_SNAKE_CASE")]
-    pub enum Color {
-        Red,
-        DarkBlue,
-        Z42,
-    }
-}
-
-pub mod sda57a82790 {
-    use apache_avro::AvroSchema;
-    use serde::{Deserialize, Serialize};
-    use std::collections::HashMap;
-    #[derive(AvroSchema, Serialize, Deserialize)]
-    pub struct A {
-        pub b: Option<Box<B>>,
-    }
-    #[derive(AvroSchema, Serialize, Deserialize)]
-    pub struct B {
-        pub kids: Vec<A>,
-    }
-}
-
-pub mod sdea5132e54 {
-    use apache_avro::AvroSchema;
-    use serde::{Deserialize, Serialize};
-    use std::collections::HashMap;
-    #[derive(AvroSchema, Serialize, Deserialize)]
-    pub struct Outer {
-        pub a: Vec<Shape>,
-        pub id: i32,
-    }
-    #[derive(AvroSchema, Serialize, Deserialize)]
-    pub enum Shape {
-        One,
-        Two(i32),
-        MyItem(i32, String),
-        DarkBlue {
-            very_tasty: i64,
-            b: Option<String>,
-        },
-    }
-}
-
-pub mod se0a304cf58 {
-    use apache_avro::AvroSchema;
-    use serde::{Deserialize, Serialize};
-    use std::collections::HashMap;
-    #[derive(AvroSchema, Serialize, Deserialize)]
-    pub struct A {
-        pub left: Shape,
-        pub right: Shape,
-    }
-    #[derive(AvroSchema, Serialize, Deserialize)]
-    pub enum Shape {
-        One,
-        Two(i32),
-        MyItem(i32, String),
-        DarkBlue {
-            very_tasty: i64,
-            b: Option<String>,
-        },
-    }
-}
-
-pub mod sec2e1dd250 {
-    use apache_avro::AvroSchema;
-    use serde::{Deserialize, Serialize};
-    use std::collections::HashMap;
-    #[derive(AvroSchema, Serialize, Deserialize)]
-    pub struct T1 {
-        pub x: i32,
-        pub left: Option<Box<T1>>,
-        pub right: T3,
-    }
-    #[derive(AvroSchema, Serialize, Deserialize)]
-    pub struct T2 {
-        pub y: i32,
-        pub one: Option<Box<T3>>,
-    }
-    #[derive(AvroSchema, Serialize, Deserialize)]
-    pub struct T3 {
-        pub z42: i32,
-        pub item: T2,
-    }
-}
-
-pub mod sef24f2bd48 {
-    use apache_avro::AvroSchema;
-    use serde::{Deserialize, Serialize};
-    use std::collections::HashMap;
-    #[derive(AvroSchema, Serialize, Deserialize)]
-    pub struct Rec {
-        pub a: Option<i32>,
-        pub my_field: i32,
-    }
-}
-
-pub mod sf031ed6be8 {
-    use apache_avro::AvroSchema;
-    use serde::{Deserialize, Serialize};
-    use std::collections::HashMap;
-    #[derive(AvroSchema, Serialize, Deserialize)]
-    pub struct T1 {
-        pub x: i32,
-        pub left: Option<Box<T3>>,
-        #[serde(flatten)]
-        pub right: T2,
-    }
-    #[derive(AvroSchema, Serialize, Deserialize)]
-    pub struct T2 {
-        pub y: i32,
-    }
-    #[derive(AvroSchema, Serialize, Deserialize)]
-    pub struct T3 {
-        pub z42: i32,
-        pub item: T1,
-    }
-}
-
-pub mod sf189be3dfc {
-    use apache_avro::AvroSchema;
-    use serde::{Deserialize, Serialize};
-    use std::collections::HashMap;
-    #[derive(AvroSchema, Serialize, Deserialize)]
-    pub struct Rec {
-        pub a: Option<String>,
-        pub my_field: i32,
-    }
-}
-
-pub mod sf2206e37f8 {
-    use apache_avro::AvroSchema;
-    use serde::{Deserialize, Serialize};
-    use std::collections::HashMap;
-    #[derive(AvroSchema, Serialize, Deserialize)]
-    pub struct T1 {
-        pub x: i32,
-        pub left: T2,
-        pub right: T2,
-    }
-    #[derive(AvroSchema, Serialize, Deserialize)]
-    pub struct T2 {
-        pub y: i32,
-        pub one: T3,
-    }
-    #[derive(AvroSchema, Serialize, Deserialize)]
-    pub struct T3 {
-        pub z42: i32,
-        pub item: Option<Box<T2>>,
-    }
-}
-
-pub mod sf4bc9b69b4 {
-    use apache_avro::AvroSchema;
-    use serde::{Deserialize, Serialize};
-    use std::collections::HashMap;
-    #[derive(AvroSchema, Serialize, Deserialize)]
-    #[serde(transparent)]
-    pub struct Trans {
-        pub inner: i32,
-    }
-}
-
-pub static REGISTRY: &[(&str, Runner)] = &[
-    ("s00f00c43b4", run_type::<s00f00c43b4::Shape> as Runner),
-    ("s0196fd8720", run_type::<s0196fd8720::Rec> as Runner),
-    ("s0ebe84b664", run_type::<s0ebe84b664::Rec> as Runner),
-    ("s1814921c28", run_type::<s1814921c28::Rec> as Runner),
-    ("s1893ac00d0", run_type::<s1893ac00d0::Empty> as Runner),
-    ("s22bbedbd80", run_type::<s22bbedbd80::Outer> as Runner),
-    ("s27297796d4", run_type::<s27297796d4::Rec> as Runner),
-    ("s31cfe2a060", run_type::<s31cfe2a060::Shape> as Runner),
-    ("s3d66968484", run_type::<s3d66968484::Shape> as Runner),
-    ("s3fe10850a8", run_type::<s3fe10850a8::Wrap> as Runner),
-    ("s485851a3ec", run_type::<s485851a3ec::T1> as Runner),
-    ("s4b43932dc0", run_type::<s4b43932dc0::A> as Runner),
-    ("s5e1479ed14", run_type::<s5e1479ed14::Rec> as Runner),
-    ("s65c6b30b8c", run_type::<s65c6b30b8c::Outer> as Runner),
-    ("s6627f3894c", run_type::<s6627f3894c::Outer> as Runner),
-    ("s7be24e5cf4", run_type::<s7be24e5cf4::Rec> as Runner),
-    ("s7ca68348ec", run_type::<s7ca68348ec::Rec> as Runner),
-    ("s7d7d4511d4", run_type::<s7d7d4511d4::Rec> as Runner),
-    ("s87e239aedc", run_type::<s87e239aedc::Rec> as Runner),
-    ("s8c91e81f3c", run_type::<s8c91e81f3c::Color> as Runner),
-    ("s93fba37990", run_type::<s93fba37990::Bare> as Runner),
-    ("s998eac7e38", run_type::<s998eac7e38::Three> as Runner),
-    ("s9b72130520", run_type::<s9b72130520::Rec> as Runner),
-    ("s9f629bf4e0", run_type::<s9f629bf4e0::Color> as Runner),
-    ("saa4cd2ee98", run_type::<saa4cd2ee98::Shape> as Runner),
-    ("sad0f33e738", run_type::<sad0f33e738::A> as Runner),
-    ("sad465dd7ac", run_type::<sad465dd7ac::Color> as Runner),
-    ("sbf599ae8e0", run_type::<sbf599ae8e0::Outer> as Runner),
-    ("sbfb75c2e80", run_type::<sbfb75c2e80::Rec> as Runner),
-    ("sc046b0bae4", run_type::<sc046b0bae4::T1> as Runner),
-    ("sc381c74adc", run_type::<sc381c74adc::Color> as Runner),
-    ("sd54d5338f0", run_type::<sd54d5338f0::Color> as Runner),
-    ("sda57a82790", run_type::<sda57a82790::A> as Runner),
-    ("sdea5132e54", run_type::<sdea5132e54::Outer> as Runner),
-    ("se0a304cf58", run_type::<se0a304cf58::A> as Runner),
-    ("sec2e1dd250", run_type::<sec2e1dd250::T1> as Runner),
-    ("sef24f2bd48", run_type::<sef24f2bd48::Rec> as Runner),
-    ("sf031ed6be8", run_type::<sf031ed6be8::T1> as Runner),
-    ("sf189be3dfc", run_type::<sf189be3dfc::Rec> as Runner),
-    ("sf2206e37f8", run_type::<sf2206e37f8::T1> as Runner),
-    ("sf4bc9b69b4", run_type::<sf4bc9b69b4::Trans> as Runner),
-];
+include!(concat!(env!("CARGO_MANIFEST_DIR"), "/generated.rs"));
